@@ -22,7 +22,7 @@ func (x *Exec) lemmaObligations(prop string) {
 			}()
 			st := &State{heap: map[string]*Term{}, ghost: map[string]Value{}}
 			st.now = Var("now0", SInt)
-			st.alloc = Var("alloc0", ArrOf(SBool))
+			st.alloc = Var("alloc0", SInt)
 			env := &SpecEnv{x: x, st: st, vars: map[string]Value{}, bound: map[string]Value{}, pkgPath: lm.Pkg}
 			goal := x.specBool(env, lm.Expr.Expr)
 			name := shortPkg(lm.Pkg) + ".lemma:" + lm.Name
